@@ -30,7 +30,7 @@ def line_line_reported_pairs_are_real(c):
         c.ensures('points-coincide', ops.eq(bez.bern(P, t1), bez.bern(Q, t2)))
 
 
-@contract('C11', 'path.Line.intersect', budget=120)
+@contract('C11', 'path.Line.intersect', budget=120, tier='thorough')
 def line_line_swap_transposes(c):
     P, Q, a, b = two_lines(c)
     c.assume(ops.And(ops.ne(P[0], P[1]), ops.ne(Q[0], Q[1]), ops.Not(ops.And(ops.eq(P[0], Q[0]), ops.eq(P[1], Q[1])))))
